@@ -56,6 +56,7 @@ func Mix(seed uint64, d time.Duration) []string {
 	for _, eng := range []string{"btree", "leveldb-mem"} {
 		e := NewBtEnv(eng)
 		e.Seed()
+		e.SeedBig()
 		spawn("GetTable+encode", seed+1, func(r *core.Rng) {
 			t, err := e.Svc.Admin().GetTable(ctx, &btapb.GetTableRequest{Name: btTable})
 			if err == nil {
@@ -77,6 +78,16 @@ func Mix(seed uint64, d time.Duration) []string {
 			e.Svc.Admin().CreateTable(ctx, &btapb.CreateTableRequest{Parent: "p", TableId: "tmp", Table: &btapb.Table{ColumnFamilies: map[string]*btapb.ColumnFamily{"f": {}}}})
 			e.Svc.Data().MutateRow(ctx, &btpb.MutateRowRequest{TableName: "p/tables/tmp", RowKey: []byte("k"), Mutations: []*btpb.Mutation{{Mutation: &btpb.Mutation_SetCell_{SetCell: &btpb.Mutation_SetCell{FamilyName: "f", TimestampMicros: 1000, Value: []byte("v")}}}}})
 			e.Svc.Admin().DeleteTable(ctx, &btapb.DeleteTableRequest{Name: "p/tables/tmp"})
+		})
+		spawn("ModifyColumnFamilies of the table being created", seed+10, func(r *core.Rng) {
+			// a client that changes a table the instant it exists (A16c: the creator was still copying its definition)
+			e.Svc.Admin().ModifyColumnFamilies(ctx, &btapb.ModifyColumnFamiliesRequest{Name: "p/tables/tmp", Modifications: []*btapb.ModifyColumnFamiliesRequest_Modification{
+				{Id: core.Pick(r, []string{"x", "y"}), Mod: &btapb.ModifyColumnFamiliesRequest_Modification_Create{Create: &btapb.ColumnFamily{}}}}})
+		})
+		spawn("ReadRows abandoned by its client", seed+11, func(r *core.Rng) {
+			// the stream refuses the second message (a client that went away in the middle of a long scan)
+			e.Svc.Data().ReadRows(&btpb.ReadRowsRequest{TableName: btBig}, &readStream{fake: fake{ctx}, failAt: 2})
+			e.Svc.Data().MutateRow(ctx, &btpb.MutateRowRequest{TableName: btBig, RowKey: []byte("w"), Mutations: []*btpb.Mutation{{Mutation: &btpb.Mutation_SetCell_{SetCell: &btpb.Mutation_SetCell{FamilyName: "f", TimestampMicros: 1000, Value: []byte("v")}}}}})
 		})
 		spawn("ReadRows/ListTables", seed+4, func(r *core.Rng) {
 			e.Svc.Data().ReadRows(&btpb.ReadRowsRequest{TableName: core.Pick(r, []string{btTable, "p/tables/tmp"})}, &readStream{fake: fake{ctx}})
@@ -120,6 +131,13 @@ func Mix(seed uint64, d time.Duration) []string {
 		spawn("gcs list/get", seed+8, func(r *core.Rng) {
 			do("list", Req{Method: "GET", Path: "/storage/v1/b/" + core.Pick(r, []string{"bk", "b2"}) + "/o", Query: core.Pick(r, []string{"", "delimiter=/", "maxResults=1", "prefix=d/"})})
 			do("get", Req{Method: "GET", Path: "/storage/v1/b/bk/o/" + core.Pick(r, []string{"a", "new", "d/e"}), Query: core.Pick(r, []string{"", "alt=media"})})
+		})
+		// rewrites in opposite directions between two objects (a lock-order inversion would wedge both)
+		spawn("gcs copy a->b", seed+12, func(r *core.Rng) {
+			do("copy a->swap", Req{Method: "POST", Path: "/storage/v1/b/bk/o/a/rewriteTo/b/bk/o/swap", Hdr: map[string]string{"Content-Type": "application/json"}, Body: []byte(`{}`)})
+		})
+		spawn("gcs copy b->a", seed+13, func(r *core.Rng) {
+			do("copy swap->a", Req{Method: "POST", Path: "/storage/v1/b/bk/o/swap/rewriteTo/b/bk/o/a", Hdr: map[string]string{"Content-Type": "application/json"}, Body: []byte(`{}`)})
 		})
 		spawn("gcs delete/compose/copy", seed+9, func(r *core.Rng) {
 			do("delete", Req{Method: "DELETE", Path: "/storage/v1/b/bk/o/" + core.Pick(r, []string{"new", "d/e", "cp"})})
